@@ -35,6 +35,17 @@ def step (line : String) : String :=
     let cf : Option Bool := if g "cf" == "-" then none else some true
     let push := "push=" ++ fmtIds (live passT sf cf false (cand "push"))
     match g "path" with
+    | "multi" =>
+      -- several subscribers of one channel: each judged with its own Match bits
+      let n := ((g "sfs").splitOn "|").length
+      let sfsL := (g "sfs").splitOn "|"
+      let cfsL := (g "cfs").splitOn "|"
+      joinWith " " ((List.range n).map fun k =>
+        let tk := parseT (g s!"T{k}")
+        let mkk := fun (ids : List Nat) => ids.map fun i => ({ id := i, tags := tk.getD i (true, true) } : Pub Tg)
+        let sfk : Option Bool := if sfsL.getD k "-" == "-" then none else some false
+        let cfk : Option Bool := if cfsL.getD k "-" == "-" then none else some true
+        s!"push{k}=" ++ fmtIds (live passT sfk cfk false (mkk (parseIds (g s!"c.push{k}")))))
     | "live" => push
     | "rec" =>
       let reply := if g "rec" == "1" then streamRecovery passT sf cf (cand "reply") (cand "win") else []
